@@ -78,6 +78,17 @@ structure WithinLimits (max : Nat) (e : Enc) (name payload : Bytes) : Prop where
 /-- the parameters accept the message: its type is registered and protobuf accepts the payload -/
 def Knows (c : Codec) (name payload : Bytes) : Prop := c.reg name = true ∧ c.pdec name payload = true
 
+/-- non-vacuity: a message `A.B` with payload `01 02 03`, one header `k → v` and 5 ns remaining,
+    under the default 16 MiB limit, known to the all-accepting codec -/
+example : WithinLimits (2 ^ 24) (some (some ([([107], [118])], 5))) [65, 46, 66] [1, 2, 3] ∧
+    Knows Codec.top [65, 46, 66] [1, 2, 3] := by
+  refine ⟨⟨by decide, by decide, by decide, ?_⟩, rfl, rfl⟩
+  intro m hm
+  simp only [Option.some.injEq] at hm
+  subst hm
+  refine ⟨fun hs r h => ?_, fun hs r h => ?_⟩ <;>
+    (simp only [Option.some.injEq, Prod.mk.injEq] at h; obtain ⟨rfl, rfl⟩ := h; decide)
+
 /-! ## metadata codec -/
 
 theorem inLimits_iff (hs : Headers) : Spec.C23.inLimits hs = true ↔
@@ -434,6 +445,57 @@ theorem concat_client (c : Codec) (max : Nat) (msgs : List (Enc × Bytes × Byte
     simp only [hd]
     simp only [frames] at htl
     simp only [htl]
+
+/-- `marshalProtoWithContext` picks the format from the context: no metadata or a nil one → legacy -/
+theorem clientMarshal_eq (ctx : Option (Option (Headers × Int))) (name payload : Bytes) :
+    clientMarshal (ctx.map fun m => m.map fun hr => mdMarshal hr.1 hr.2) name payload =
+      encode (match ctx with | some (some hr) => some (some hr) | _ => none) name payload := by
+  match ctx with
+  | none => rfl
+  | some none => rfl
+  | some (some (hs, r)) => rfl
+
+/-- the whole request/response pipeline of `SendBatchProto` against a server whose handler echoes:
+    every request (with or without metadata) reaches the handler in order with the same name,
+    payload, headers and remaining time; the server writes one legacy frame per request; the client
+    reads the responses back one by one, in order -/
+theorem echo_pipeline (c : Codec) (max : Nat) (msgs : List (Enc × Bytes × Bytes))
+    (h : ∀ m ∈ msgs, WithinLimits max m.1 m.2.1 m.2.2 ∧ WithinLimits max none m.2.1 m.2.2 ∧ Knows c m.2.1 m.2.2) :
+    serverEcho c max (frames msgs).flatten =
+      (msgs.map (fun m => expected m.1 m.2.1 m.2.2), (msgs.map fun m => legacyFrame m.2.1 m.2.2).flatten) ∧
+    clientReadN c max msgs.length (msgs.map fun m => legacyFrame m.2.1 m.2.2).flatten =
+      .ok (msgs.map fun m => ⟨m.2.1, m.2.2, none⟩) := by
+  constructor
+  · induction msgs with
+    | nil => rw [serverEcho]; simp [frames, readFrame, readFull]
+    | cons m rest ih =>
+      obtain ⟨hw, hwl, hk⟩ := h m (by simp)
+      have hrest := ih (fun g hg => h g (by simp [hg]))
+      have hf := wellFramed_encFrame hw
+      have hd := (roundtrip_server c max m.1 m.2.1 m.2.2 hw hk).2
+      obtain ⟨a, n', hn, _⟩ := validName_cons hw.nameOK
+      have hm : marshal (expected m.1 m.2.1 m.2.2).name (expected m.1 m.2.1 m.2.2).payload
+          = .ok (legacyFrame m.2.1 m.2.2) := by
+        simp only [expected]
+        exact marshal_eq _ (by rw [hn]; simp)
+      rw [serverEcho]
+      simp only [frames, List.map_cons, List.flatten_cons]
+      rw [readFrame_append _ _ hf]
+      simp only [hd, hm]
+      have h8 := wellFramed_len hf
+      have hlt : (List.map (fun m => encFrame m.1 m.2.1 m.2.2) rest).flatten.length <
+          (encFrame m.1 m.2.1 m.2.2 ++ (List.map (fun m => encFrame m.1 m.2.1 m.2.2) rest).flatten).length := by
+        simp only [List.length_append]; omega
+      simp only [hlt, dite_true]
+      simp only [frames] at hrest
+      rw [hrest]
+  · have := concat_client c max (msgs.map fun m => ((none : Enc), m.2.1, m.2.2)) [] (by
+      intro m hm
+      simp only [List.mem_map] at hm
+      obtain ⟨x, hx, rfl⟩ := hm
+      obtain ⟨_, b, k⟩ := h x hx
+      exact ⟨b, k, Or.inl rfl⟩)
+    simpa [frames, encFrame, expected, Function.comp_def] using this
 
 /-! ## totality, memory safety, allocation limit -/
 
